@@ -401,7 +401,7 @@ def run(rep, facts, tier):
             nseg = search_segments(rep, f, c)
             na = astral_filter(rep, f, c)
             if c in ('default', 'noalloc'):
-                rep.floor('C17-D5.astral', 'element-wise BIG5_LOW_BITS matches returned as pointers', na, 2, c)
+                rep.floor('C17-D5.astral', 'element-wise BIG5_LOW_BITS matches returned as pointers', na, 1, c)
             rep.floor('C17-D5.segment', 'constant search segments over index-aligned decode tables', nseg, {'default': 16, 'noalloc': 16, 'lessslow': 12, 'fast': 11}[c], c)
         if base is not None and c in ('fast', 'lessslow', 'simd', 'noalloc'):
             prof = class_profile(f)
